@@ -237,3 +237,100 @@ Theorem C10_codec_agrees_text_gomanifest_segment : forall txt m,
       then Some (denote m (a ++ "/" ++ b)%string) else None.
 Proof. exact gm_segment_text_agrees. Qed.
 Print Assumptions C10_codec_agrees_text_gomanifest_segment.
+
+(* ==== extract_preserves / normalize_preserves, TEXT level (proofs/C10_text_canon.v, C10_text_norm.v, C10_text_extract.v) ====
+   Hypotheses besides validity and [small_manifest]:
+     - locators with the same hash state the same size.  This is implied by the existence of ANY block store consistent
+       with the manifest (C10_consistent_store_gives_consistent_sizes) and it cannot be dropped
+       (C10_extract_needs_consistent_sizes: normalizedText keys its block table by hash only);
+     - srcpath and relocate are canonical ("." or "./a/b"; relocate optionally with a trailing "/"), as in spec_b. *)
+From AV Require Import proofs.C10_text_canon proofs.C10_text_norm proofs.C10_text_extract.
+
+(* Manifest.Extract(srcpath, relocate) returns a text (no error, no panic) that the boolean specification accepts:
+   [GM.extract_ok] = the text is a valid manifest whose set of paths is exactly the set of relocated paths of the
+   reference reading [extract_ref] of Extract's doc comment, and every destination path has the same canonical segments
+   as its source path.  (This is the clause of spec_b that was only judged per generated case.) *)
+Theorem C10_extract_preserves : forall txt m src reloc,
+  valid_manifest txt = true -> parse_manifest txt = Some m -> small_manifest m = true ->
+  (forall b1 b2, In b1 (flat_map s_blocks m) -> In b2 (flat_map s_blocks m) -> loc_hash b1 = loc_hash b2 -> loc_size b1 = loc_size b2) ->
+  valid_stream_name_u src = true -> valid_stream_name_u (GM.strip_slash reloc) = true ->
+  exists out, gm_extract txt src reloc = Ok out /\ GM.extract_ok m src reloc out = true.
+Proof. exact extract_preserves. Qed.
+Print Assumptions C10_extract_preserves.
+
+(* ... spelled out: same paths, same canonical segments, same bytes for EVERY block store *)
+Theorem C10_extract_preserves_bytes : forall txt m src reloc,
+  valid_manifest txt = true -> parse_manifest txt = Some m -> small_manifest m = true ->
+  (forall b1 b2, In b1 (flat_map s_blocks m) -> In b2 (flat_map s_blocks m) -> loc_hash b1 = loc_hash b2 -> loc_size b1 = loc_size b2) ->
+  valid_stream_name_u src = true -> valid_stream_name_u (GM.strip_slash reloc) = true ->
+  let E := extract_ref m src (GM.strip_slash reloc) (has_suffix_slash reloc) in
+  exists out m', gm_extract txt src reloc = Ok out /\ valid_manifest out = true /\ parse_manifest out = Some m' /\
+    (forall d, In d (all_paths m') <-> In d (map fst E)) /\
+    (forall d s, In (d, s) E -> canon_eqb (denote m' d) (denote m s) = true) /\
+    (forall (st : store) d s, In (d, s) E -> file_bytes st m' d = file_bytes st m s).
+Proof. exact extract_preserves_meaning. Qed.
+Print Assumptions C10_extract_preserves_bytes.
+
+(* normalize_preserves: Extract(".", ".") = the whole manifest in normal form (one line per stream, streams and files
+   sorted, each referenced block once, adjacent ranges merged) is a valid manifest with the same paths and, for every
+   path and every block store, the same bytes *)
+Theorem C10_normalize_preserves : forall txt m (st : store),
+  valid_manifest txt = true -> parse_manifest txt = Some m -> small_manifest m = true ->
+  (forall b1 b2, In b1 (flat_map s_blocks m) -> In b2 (flat_map s_blocks m) -> loc_hash b1 = loc_hash b2 -> loc_size b1 = loc_size b2) ->
+  exists out m', gm_extract txt "." "." = Ok out /\ valid_manifest out = true /\ parse_manifest out = Some m' /\
+    (forall p, In p (all_paths m') <-> In p (all_paths m)) /\
+    (forall p, In p (all_paths m) -> canon_eqb (denote m' p) (denote m p) = true) /\
+    (forall p, In p (all_paths m) -> file_bytes st m' p = file_bytes st m p).
+Proof.
+  intros txt m st Hv Hp Hsm Hc. destruct (normalize_preserves txt m Hv Hp Hsm Hc) as (out & m' & H1 & H2 & H3 & H4 & H5).
+  exists out, m'. repeat (split; [assumption|]). intros p Hin. unfold file_bytes. apply canon_eqb_bytes. apply H5. exact Hin.
+Qed.
+Print Assumptions C10_normalize_preserves.
+
+(* one line of normalizedText, for the (sorted) files of one stream: it is a valid stream of the published grammar which
+   the reference parser reads back with the same name, the same file names and, file by file, the same canonical
+   segments.  [nt_ok]: valid stream name; >= 1 file; distinct slash-free file names, each a permitted component or the
+   directory marker "." with no data; every segment non-empty and inside its block (a valid locator of size <= 64 MiB);
+   sizes consistent per hash. *)
+Theorem C10_normalize_stream_preserves : forall name sf, nt_ok name (sorted_files sf) ->
+  exists line s', normalized_text name sf = (line ++ s_nl)%string /\ valid_stream line = true /\ parse_stream line = Some s' /\
+    s_name s' = name /\
+    (forall b, In b (map ft_name (s_ftoks s')) <-> In b (map fst (sorted_files sf))) /\
+    (forall f, In f (sorted_files sf) -> canon_eqb (stream_segs s' (path_of name (fst f))) (snd f) = true).
+Proof.
+  intros name sf H. exists (nt_line name (sorted_files sf)), (nt_stream name (sorted_files sf)).
+  split; [apply normalized_text_eq|]. split; [apply nt_valid'; exact H|]. split; [apply nt_parse'; exact H|]. split; [reflexivity|].
+  split; [apply nt_names'; exact H|]. intros f Hf. apply explode_canon_eqb. apply nt_content'; assumption.
+Qed.
+Print Assumptions C10_normalize_stream_preserves.
+
+Theorem C10_consistent_store_gives_consistent_sizes : forall (st : store) m, consistent st m ->
+  forall b1 b2, In b1 (flat_map s_blocks m) -> In b2 (flat_map s_blocks m) -> loc_hash b1 = loc_hash b2 -> loc_size b1 = loc_size b2.
+Proof. exact consistent_store_sizes. Qed.
+Print Assumptions C10_consistent_store_gives_consistent_sizes.
+
+(* WITNESS that extract_preserves is FALSE for valid_manifest alone: a grammar-valid manifest with one hash at two sizes
+   (no block store can be consistent with it) makes Extract(".", ".") emit a token past the end of its stream *)
+Theorem C10_extract_needs_consistent_sizes :
+  valid_manifest inconsistent_example = true /\
+  gm_extract inconsistent_example "." "." = Ok (". 37b51d194a7513e45b56f6524f2d51f2+3 0:3:f 0:5:f" ++ s_nl)%string /\
+  valid_manifest (". 37b51d194a7513e45b56f6524f2d51f2+3 0:3:f 0:5:f" ++ s_nl)%string = false.
+Proof. exact extract_needs_consistent_sizes. Qed.
+Print Assumptions C10_extract_needs_consistent_sizes.
+
+(* normalize_preserves, Python SDK (proofs/C10_text_pynorm.v): the tokens returned by normalize_stream(name, files),
+   joined by spaces, form a valid stream which the reference parser reads back with the same name, the same file names
+   and, file by file, the same canonical segments.  Hypotheses: every LocatorAndRange carries the block size its locator
+   states ([PN.pseg_ok], as spec_b demands of locators_and_ranges) and [PN.nt_ok] = the conditions of
+   C10_normalize_stream_preserves except that segments may be empty (locators_and_ranges returns zero-length pieces for
+   empty blocks inside a range). *)
+From AV Require Import proofs.C10_text_pynorm.
+Theorem C10_normalize_stream_preserves_python : forall name sf,
+  Forall PN.pseg_ok (flat_map snd (py_sorted_files sf)) -> PN.nt_ok name (PN.py_files sf) ->
+  exists s', valid_stream (join " " (py_normalize_stream name sf)) = true /\
+    parse_stream (join " " (py_normalize_stream name sf)) = Some s' /\ s_name s' = name /\
+    (forall b, In b (map ft_name (s_ftoks s')) <-> In b (map fst (py_sorted_files sf))) /\
+    (forall f, In f (py_sorted_files sf) ->
+       canon_eqb (stream_segs s' (path_of name (fst f))) (map PN.of_pseg (snd f)) = true).
+Proof. exact PN.py_normalize_stream_preserves. Qed.
+Print Assumptions C10_normalize_stream_preserves_python.
